@@ -331,8 +331,66 @@ def callbackCount {ρ : Type} : List (Row ρ) → Nat
   | .bad :: _ => 0
   | .ok _ :: r => callbackCount r + 1
 
+/-- what the table readers leave of a line -/
+def Row.payload? {ρ : Type} : Row ρ → Option ρ
+  | .ok r => some r
+  | .bad => none
+
 /-- a per-edge table (speeds, grades, headings, road classes): row `i` of the file belongs to edge
 `i` (`read_raw_file` enumerates lines from zero; `from_csv` keeps row order) -/
 def tableRow {β : Type} (table : List β) (edgeId : Nat) : Option β := table[edgeId]?
+
+/-! ### the consumers of a per-edge table
+
+`speed_traversal_model::get_speed`, `turn_delay_access_model_engine::get_headings`,
+`energy_model_ops::get_grade` / `get_headings` and `RoadClassFrontierModel::valid_frontier` all read
+`table.get(edge_id.as_usize())` and turn a missing row into an error of the traversal / access /
+frontier evaluation.  Nothing compares the length of a table with the number of edges when the
+models are built. -/
+
+inductive LookupErr where
+  | missing (edgeId : Nat)
+  deriving Repr, DecidableEq, Inhabited
+
+/-- `get_speed` / `get_headings`: `table.get(edge_id).ok_or_else(..)` -/
+def tableGet {β : Type} (table : List β) (edgeId : Nat) : Except LookupErr β :=
+  match tableRow table edgeId with
+  | none => .error (.missing edgeId)
+  | some x => .ok x
+
+/-- `get_grade`: without a grade table every grade is `Grade::ZERO` -/
+def getGrade {β : Type} (table : Option (List β)) (zero : β) (edgeId : Nat) : Except LookupErr β :=
+  match table with
+  | none => .ok zero
+  | some t => tableGet t edgeId
+
+/-- `RoadClassFrontierModel::valid_frontier`: without a `road_classes` restriction in the query every
+edge is valid and the table is not looked at -/
+def roadClassValid (lookup : List Nat) (allowed : Option (List Nat)) (edgeId : Nat) : Except LookupErr Bool :=
+  match allowed with
+  | none => .ok true
+  | some cs =>
+    match tableGet lookup edgeId with
+    | .error x => .error x
+    | .ok c => .ok (cs.contains c)
+
+/-! ### allocation of the adjacency tables
+
+`EdgeLoader::try_from` starts by allocating one adjacency list per vertex for the declared / scanned
+vertex count (`adjacency_table`: `try_reserve_exact`, then `resize`).  A count above
+`isize::MAX / size_of::<CompactOrderedHashMap<..>>()` (`capLimit`, data) cannot be reserved and is a
+`DatasetError`, before the edge file is opened (before /repo's repair `vec![..; n_vertices]` panicked
+with "capacity overflow").  A count below that limit but beyond the memory the process can get is NOT
+modelled (see the header of Props/C15.lean). -/
+
+/-- `graph_from_files` with the allocation of the adjacency tables made explicit -/
+def graphFromFilesAlloc {α : Type} (capLimit : Nat) (ef : CsvFile (Edge α)) (vf : CsvFile (Vertex α))
+    (nEdges nVertices : Option Nat) : Except LoadErr (Graph α) :=
+  match countOrScan nEdges ef with
+  | .error x => .error x
+  | .ok _ =>
+    match countOrScan nVertices vf with
+    | .error x => .error x
+    | .ok nV => if capLimit < nV then .error .dataset else graphFromFiles ef vf nEdges nVertices
 
 end Compass
